@@ -1,6 +1,407 @@
 /- helper lemmas for Index (C12) -/
 import DC.Proofs.LayerLemmas
+import DC.Proofs.Block
 import DC.Properties.C10
+import DC.Properties.C03_Inv
+import DC.Properties.C04
+
+namespace DC.Cache
+
+/-! ### tables without expiry -/
+
+/-- no row carries an expiry time -/
+def NoExp (rows : List Row) : Prop := ∀ r ∈ rows, r.expT = none
+
+theorem live_of_noexp {r : Row} (h : r.expT = none) (now : Int) : live now r = true := by
+  simp [live, h]
+
+theorem expired_of_noexp {r : Row} (h : r.expT = none) (now : Int) : expired now r = false := by
+  simp [expired, h]
+
+/-- without expiry the look-up with the liveness clause is the plain look-up -/
+theorem selLive_eq_selKey {s : Cache} (h : NoExp s.rows) (k : SqlVal) (raw : Bool) (now : Int) :
+    s.selLive k raw now = s.selKey k raw := by
+  unfold selLive selKey
+  generalize s.rows = rows at h
+  induction rows with
+  | nil => rfl
+  | cons a t ih =>
+    have ha : live now a = true := live_of_noexp (h a (List.mem_cons_self ..)) now
+    simp only [List.find?_cons, ha, Bool.and_true]
+    split
+    · rfl
+    · exact ih (fun r hr => h r (List.mem_cons_of_mem _ hr))
+
+theorem selKey_none_iff {s : Cache} {k : SqlVal} {raw : Bool} :
+    s.selKey k raw = none ↔ s.rows.any (keyMatch k raw) = false := by
+  unfold selKey
+  rw [List.find?_eq_none, List.any_eq_false]
+
+theorem selKey_some_of_any {s : Cache} {k : SqlVal} {raw : Bool}
+    (h : s.rows.any (keyMatch k raw) = true) :
+    ∃ r, s.selKey k raw = some r ∧ r ∈ s.rows ∧ keyMatch k raw r = true := by
+  cases hs : s.selKey k raw with
+  | none => rw [selKey_none_iff.1 hs] at h; cases h
+  | some r => exact ⟨r, rfl, List.mem_of_find?_eq_some hs, List.find?_some hs⟩
+
+/-- the row found by key is the only one matching it -/
+theorem selKey_eq_of_mem {s : Cache} (hu : KeysUnique s.rows) {k : SqlVal} {raw : Bool} {r : Row}
+    (hr : r ∈ s.rows) (hk : keyMatch k raw r = true) : s.selKey k raw = some r := by
+  obtain ⟨r', h1, h2, h3⟩ := selKey_some_of_any (List.any_eq_true.2 ⟨r, hr, hk⟩)
+  rw [h1, keysUnique_eq hu h2 hr h3 hk]
+
+/-- policy 'none' and no expiry: the lazy cull removes nothing, touches neither cfg nor depth -/
+theorem cullW_noexp (t : Cache) (now : Int) (hp : t.cfg.policy = .none) (h : NoExp t.rows) :
+    (t.cullW now).1.rows = t.rows :=
+  cullW_quiet t now (Or.inr ⟨hp, fun r hr => expired_of_noexp (h r hr) now⟩)
+
+theorem cullW_cfg (t : Cache) (now : Int) : (t.cullW now).1.cfg = t.cfg :=
+  congrArg Core.cfg (cullW_core t now).1
+
+theorem cullW_depth (t : Cache) (now : Int) : (t.cullW now).1.depth = t.depth :=
+  congrArg Core.depth (cullW_core t now).1
+
+/-! ### a transaction outside a block -/
+
+/-- outside a block a transaction keeps depth and configuration of the body's end state -/
+theorem transact_zero_fields (s : Cache) (body : Cache → Body) (fresh : Option Nat) (hd : s.depth = 0) :
+    (s.transact body fresh).1.depth = (body (s.log .begin)).s.depth ∧
+    (s.transact body fresh).1.cfg = (body (s.log .begin)).s.cfg := by
+  unfold transact
+  simp only [hd, Nat.lt_irrefl, if_false]
+  split
+  · exact ⟨by rw [fremoveAll_depth]; rfl, by rw [fremoveAll_cfg]; rfl⟩
+  · cases fresh <;> exact ⟨rfl, rfl⟩
+
+/-- outside a block: the committed table of a body that succeeds -/
+theorem transact_zero_rows (s : Cache) (body : Cache → Body) (fresh : Option Nat) (hd : s.depth = 0)
+    (hok : (body (s.log .begin)).ok = true) :
+    (s.transact body fresh).1.rows = (body (s.log .begin)).s.rows ∧
+    (s.transact body fresh).2 = (body (s.log .begin)).out := by
+  unfold transact
+  simp only [hd, Nat.lt_irrefl, if_false, hok, if_true]
+  exact ⟨by rw [fremoveAll_rows]; rfl, trivial⟩
+
+/-- outside a block: a body that raises is rolled back -/
+theorem transact_zero_fail (s : Cache) (body : Cache → Body) (fresh : Option Nat) (hd : s.depth = 0)
+    (hok : (body (s.log .begin)).ok = false) :
+    (s.transact body fresh).1.rows = s.rows ∧
+    (s.transact body fresh).2 = (body (s.log .begin)).out := by
+  unfold transact
+  simp only [hd, Nat.lt_irrefl, if_false, hok, Bool.false_eq_true]
+  cases fresh <;> exact ⟨rfl, trivial⟩
+
+
+/-! ### `set` on a table without expiry -/
+
+theorem setRows_congr {s t : Cache} (h : t.rows = s.rows) (dbk : SqlVal) (raw : Bool) (now : Int)
+    (c : Cols) : setRows dbk raw now c t = setRows dbk raw now c s := by
+  unfold setRows selKey newRow
+  rw [h]
+
+theorem setBody_fields (dbk : SqlVal) (raw : Bool) (now : Int) (c : Cols) (t : Cache) :
+    (setBody dbk raw now c t).s.depth = t.depth ∧ (setBody dbk raw now c t).s.cfg = t.cfg := by
+  unfold setBody
+  split
+  · exact ⟨rfl, rfl⟩
+  simp only
+  split
+  · exact ⟨rfl, rfl⟩
+  cases t.selKey dbk raw with
+  | none => simp only; rw [cullW_depth, cullW_cfg]; exact ⟨rfl, rfl⟩
+  | some r => simp only; rw [cullW_depth, cullW_cfg]; exact ⟨rfl, rfl⟩
+
+theorem noExp_insRow {t : Cache} (h : NoExp t.rows) (k : SqlVal) (raw : Bool) (now : Int) (c : Cols)
+    (hc : c.expT = none) : NoExp (t.insRow k raw now c).rows := by
+  intro r hr
+  have hr' : r ∈ t.rows ++ [newRow t k raw now c] := hr
+  rcases List.mem_append.1 hr' with h1 | h1
+  · exact h r h1
+  · rw [List.mem_singleton] at h1; subst h1; exact hc
+
+theorem noExp_updRow {t : Cache} (h : NoExp t.rows) (rowid : Nat) (now : Int) (c : Cols)
+    (hc : c.expT = none) : NoExp (t.updRow rowid now c).rows := by
+  intro r hr
+  have hr' : r ∈ t.rows.map (updF rowid now c) := hr
+  obtain ⟨x, hx, rfl⟩ := List.mem_map.1 hr'
+  unfold updF
+  split
+  · exact hc
+  · exact h x hx
+
+theorem setBody_noexp (dbk : SqlVal) (raw : Bool) (now : Int) (c : Cols) (t : Cache)
+    (hc : c.expT = none) (h : NoExp t.rows) : NoExp (setBody dbk raw now c t).s.rows := by
+  unfold setBody
+  split
+  · exact h
+  simp only
+  split
+  · exact h
+  cases t.selKey dbk raw with
+  | none =>
+    simp only
+    intro r hr
+    exact noExp_insRow (t := t.logSql "selKey") h dbk raw now c hc r ((cullW_core _ now).2 r hr)
+  | some r0 =>
+    simp only
+    intro r hr
+    exact noExp_updRow (t := t.logSql "selKey") h r0.rowid now c hc r ((cullW_core _ now).2 r hr)
+
+/-- `set` without ttl keeps an Index an Index: depth, configuration, absence of expiry -/
+theorem set_keeps (s : Cache) (E : Externals) (now : Int) (k v : PyVal) (tag : SqlVal)
+    (hd : s.depth = 0) (h : NoExp s.rows) :
+    (s.set E now k v none false tag).1.depth = 0 ∧
+    (s.set E now k v none false tag).1.cfg = s.cfg ∧
+    NoExp (s.set E now k v none false tag).1.rows := by
+  rw [set_eq]
+  cases hst : s.store E v false with
+  | error e => exact ⟨hd, rfl, h⟩
+  | ok p =>
+    obtain ⟨s1, c⟩ := p
+    obtain ⟨hr1, hc1, hd1⟩ := store_spec hst
+    simp only
+    have hd1' : s1.depth = 0 := hd1.trans hd
+    obtain ⟨hF1, hF2⟩ := transact_zero_fields s1
+      (setBody (DC.put E s.cfg.disk k).1 (DC.put E s.cfg.disk k).2 now
+        { c with expT := Option.map (fun x => now + x) none, tag := tag }) c.file hd1'
+    obtain ⟨hB1, hB2⟩ := setBody_fields (DC.put E s.cfg.disk k).1 (DC.put E s.cfg.disk k).2 now
+        { c with expT := Option.map (fun x => now + x) none, tag := tag } (s1.log .begin)
+    refine ⟨by rw [hF1, hB1]; exact hd1', by rw [hF2, hB2]; exact hc1, ?_⟩
+    refine transact_rows_of _ _ NoExp ?_
+    intro t ht _ _ _
+    refine ⟨setBody_noexp _ _ _ _ _ rfl (by rw [ht, hr1]; exact h), fun _ => by rw [hr1]; exact h⟩
+
+/-- the table after a successful `set` without ttl under policy 'none' -/
+theorem set_rows_noexp (s : Cache) (E : Externals) (now : Int) (k v : PyVal) (tag : SqlVal)
+    (hd : s.depth = 0) (hp : s.cfg.policy = .none) (h : NoExp s.rows)
+    (s1 : Cache) (c : Cols) (hst : s.store E v false = .ok (s1, c))
+    (hb : bindable (DC.put E s.cfg.disk k).1 = true)
+    (hcb : Cols.bindable { c with expT := none, tag := tag } = true) :
+    (s.set E now k v none false tag).1.rows =
+      setRows (DC.put E s.cfg.disk k).1 (DC.put E s.cfg.disk k).2 now { c with expT := none, tag := tag } s := by
+  rw [set_eq, hst]
+  obtain ⟨hr1, hc1, hd1⟩ := store_spec hst
+  simp only [Option.map_none]
+  have hd1' : s1.depth = 0 := hd1.trans hd
+  generalize (DC.put E s.cfg.disk k).1 = dbk at hb ⊢
+  generalize (DC.put E s.cfg.disk k).2 = raw
+  have hbody : (setBody dbk raw now { c with expT := none, tag := tag } (s1.log .begin)).ok = true ∧
+      (setBody dbk raw now { c with expT := none, tag := tag } (s1.log .begin)).s.rows =
+        setRows dbk raw now { c with expT := none, tag := tag } s := by
+    rw [← setRows_congr (t := s1.log .begin) (s := s) hr1]
+    unfold setBody setRows
+    simp only [hb, hcb, Bool.not_true, Bool.false_eq_true, if_false, selKey_log]
+    cases hsel : s1.selKey dbk raw with
+    | none =>
+      simp only
+      refine ⟨trivial, ?_⟩
+      rw [cullW_noexp]
+      · rfl
+      · show s1.cfg.policy = .none
+        rw [hc1]; exact hp
+      · exact noExp_insRow (t := (s1.log .begin).logSql "selKey") (by rw [show ((s1.log .begin).logSql "selKey").rows = s1.rows from rfl, hr1]; exact h) _ _ _ _ rfl
+    | some r0 =>
+      simp only
+      refine ⟨trivial, ?_⟩
+      rw [cullW_noexp]
+      · rfl
+      · show s1.cfg.policy = .none
+        rw [hc1]; exact hp
+      · exact noExp_updRow (t := (s1.log .begin).logSql "selKey") (by rw [show ((s1.log .begin).logSql "selKey").rows = s1.rows from rfl, hr1]; exact h) _ _ _ rfl
+  rw [(transact_zero_rows s1 _ c.file hd1' hbody.1).1, hbody.2]
+
+
+/-! ### `__delitem__` -/
+
+theorem delRow_rows (s : Cache) (id : Nat) : (s.delRow id).rows = s.rows.filter (·.rowid != id) :=
+  delRowQuiet_rows s id
+
+/-- `del cache[key]` of a key the look-up finds, in or outside a block -/
+theorem delitem_some (s : Cache) (E : Externals) (now : Int) (k : PyVal) (r : Row)
+    (hsel : s.selLive (DC.put E s.cfg.disk k).1 (DC.put E s.cfg.disk k).2 now = some r) :
+    (s.delitem E now k).2 = .bool true ∧
+    (s.delitem E now k).1.rows = s.rows.filter (fun x => x.rowid != r.rowid) ∧
+    (s.delitem E now k).1.cfg = s.cfg ∧ (s.delitem E now k).1.depth = s.depth ∧
+    (s.delitem E now k).1.snap = s.snap := by
+  unfold delitem
+  generalize DC.put E s.cfg.disk k = p at hsel
+  rcases p with ⟨dbk, raw⟩
+  simp only at hsel ⊢
+  unfold transact
+  by_cases hd : s.depth > 0
+  · simp only [hd, if_true, hsel]
+    refine ⟨trivial, ?_, ?_, ?_, ?_⟩
+    · show ((s.logSql "selLive").delRow r.rowid).rows = _
+      rw [delRow_rows]; rfl
+    · show ((s.logSql "selLive").delRowQuiet r.rowid).cfg = _
+      rw [delRowQuiet_cfg]; rfl
+    · show ((s.logSql "selLive").delRowQuiet r.rowid).depth = _
+      rw [delRowQuiet_depth]; rfl
+    · show ((s.logSql "selLive").delRowQuiet r.rowid).snap = _
+      unfold delRowQuiet; split <;> rfl
+  · simp only [hd, if_false, selLive_log, hsel, if_true]
+    refine ⟨trivial, ?_, ?_, ?_, ?_⟩
+    · rw [fremoveAll_rows]
+      show (((s.log .begin).logSql "selLive").delRow r.rowid).rows = _
+      rw [delRow_rows]; rfl
+    · rw [fremoveAll_cfg]
+      show (((s.log .begin).logSql "selLive").delRowQuiet r.rowid).cfg = _
+      rw [delRowQuiet_cfg]; rfl
+    · rw [fremoveAll_depth]
+      show (((s.log .begin).logSql "selLive").delRowQuiet r.rowid).depth = _
+      rw [delRowQuiet_depth]; rfl
+    · rw [fremoveAll_snap]
+      show (((s.log .begin).logSql "selLive").delRowQuiet r.rowid).snap = _
+      unfold delRowQuiet; split <;> rfl
+
+/-- `del cache[key]` of a key the look-up does not find raises KeyError and changes nothing -/
+theorem delitem_none (s : Cache) (E : Externals) (now : Int) (k : PyVal)
+    (hsel : s.selLive (DC.put E s.cfg.disk k).1 (DC.put E s.cfg.disk k).2 now = none) :
+    (s.delitem E now k).2 = .exc "KeyError" ∧
+    (s.delitem E now k).1.rows = s.rows ∧
+    (s.delitem E now k).1.cfg = s.cfg ∧ (s.delitem E now k).1.depth = s.depth := by
+  unfold delitem
+  generalize DC.put E s.cfg.disk k = p at hsel
+  rcases p with ⟨dbk, raw⟩
+  simp only at hsel ⊢
+  unfold transact
+  by_cases hd : s.depth > 0
+  · simp only [hd, if_true, hsel]
+    exact ⟨rfl, rfl, rfl, rfl⟩
+  · simp only [hd, if_false, selLive_log, hsel]
+    exact ⟨rfl, rfl, rfl, rfl⟩
+
+/-- with unique rowids and keys, removing the row of a key by rowid removes the rows matching the key -/
+theorem filter_rowid_eq_filter_key {rows : List Row} (hasc : RowidsAsc rows) (hu : KeysUnique rows)
+    {k : SqlVal} {raw : Bool} {r : Row} (hr : r ∈ rows) (hk : keyMatch k raw r = true) :
+    rows.filter (fun x => x.rowid != r.rowid) = rows.filter (fun x => !keyMatch k raw x) := by
+  apply List.filter_congr
+  intro x hx
+  by_cases hxr : x.rowid = r.rowid
+  · have := rowidsAsc_eq_of_rowid hasc hx hr hxr
+    subst this
+    simp [hk]
+  · have hkx : keyMatch k raw x = false := by
+      cases hkx : keyMatch k raw x
+      · rfl
+      · exact absurd (congrArg Row.rowid (keysUnique_eq hu hx hr hkx hk)) hxr
+    simp [hxr, hkx]
+
+
+/-! ### look-up on the lock-free path -/
+
+theorem get_fast (s : Cache) (E : Externals) (now : Int) (k : PyVal)
+    (hst : s.statistics = false) (hp : s.cfg.policy = .none) :
+    (s.get E now k false false false).2 =
+      match s.selLive (DC.put E s.cfg.disk k).1 (DC.put E s.cfg.disk k).2 now with
+      | none => .default
+      | some r =>
+        match (s.fetchRow E r false).2 with
+        | .ioerror => .default
+        | f => fetchedOut f := by
+  unfold get
+  generalize DC.put E s.cfg.disk k = p
+  rcases p with ⟨dbk, raw⟩
+  simp only [hst, hp, policyUpdates, Bool.not_false, Bool.and_self, if_true, Bool.or_self,
+    show (Policy.none == Policy.lru) = false from rfl, show (Policy.none == Policy.lfu) = false from rfl]
+  cases hsel : s.selLive dbk raw now with
+  | none => rfl
+  | some r =>
+    simp only
+    have hf : ((s.logSql "selLive").fetchRow E r false).2 = (s.fetchRow E r false).2 :=
+      fetchRow_snd_congr_q _ _ E r false rfl rfl
+    rw [← hf]
+    cases ((s.logSql "selLive").fetchRow E r false).2 <;> rfl
+
+
+/-! ### `peekitem` inside a block, and the block itself -/
+
+theorem transact_pos_sel (s : Cache) (id : String) (o : Out) (hd : s.depth > 0) :
+    (s.transact (fun s => ({ s := s.logSql id, out := o } : Body))).1.rows = s.rows ∧
+    (s.transact (fun s => ({ s := s.logSql id, out := o } : Body))).1.cfg = s.cfg ∧
+    (s.transact (fun s => ({ s := s.logSql id, out := o } : Body))).1.depth = s.depth ∧
+    (s.transact (fun s => ({ s := s.logSql id, out := o } : Body))).1.snap = s.snap ∧
+    (s.transact (fun s => ({ s := s.logSql id, out := o } : Body))).1.files = s.files := by
+  unfold transact
+  simp only [hd, if_true]
+  exact ⟨rfl, rfl, rfl, rfl, rfl⟩
+
+theorem fetchRow_keep (s : Cache) (E : Externals) (r : Row) (read : Bool) :
+    (s.fetchRow E r read).1.rows = s.rows ∧ (s.fetchRow E r read).1.cfg = s.cfg ∧
+    (s.fetchRow E r read).1.depth = s.depth ∧ (s.fetchRow E r read).1.snap = s.snap := by
+  unfold fetchRow
+  split
+  · simp only; split <;> exact ⟨rfl, rfl, rfl, rfl⟩
+  · exact ⟨rfl, rfl, rfl, rfl⟩
+
+theorem peekitem_block_edge (s : Cache) (E : Externals) (now : Int) (last : Bool) (hd : s.depth > 0)
+    (r : Row) (hedge : (if last then s.rows.getLast? else s.rows.head?) = some r)
+    (hne : r.expT = none) (hf : (s.fetchRow E r false).2 ≠ .ioerror) :
+    ∃ c, s.peekitem E now last false false =
+        (c, .tup [keyOut E s.cfg.disk r.key r.raw, fetchedOut (s.fetchRow E r false).2]) ∧
+      c.rows = s.rows ∧ c.cfg = s.cfg ∧ c.depth = s.depth ∧ c.snap = s.snap := by
+  unfold peekitem
+  rw [peekitemLoop]
+  simp only [lastRow?, hedge, expired_of_noexp hne now, Bool.false_eq_true, if_false]
+  obtain ⟨h1, h2, h3, h4, h5⟩ := transact_pos_sel s "selEdge" .none hd
+  generalize (s.transact (fun s => ({ s := s.logSql "selEdge", out := .none } : Body))).1 = t at h1 h2 h3 h4 h5 ⊢
+  have hft : (t.fetchRow E r false).2 = (s.fetchRow E r false).2 :=
+    fetchRow_snd_congr_q _ _ _ _ _ h5 h2
+  obtain ⟨k1, k2, k3, k4⟩ := fetchRow_keep t E r false
+  rw [← hft] at hf ⊢
+  refine ⟨(t.fetchRow E r false).1, ?_, k1.trans h1, k2.trans h2, k3.trans h3, k4.trans h4⟩
+  rw [← h2, ← k2]
+  cases hc : (t.fetchRow E r false).2 with
+  | ioerror => exact absurd hc hf
+  | val v => rfl
+  | handle b => rfl
+
+theorem peekitem_block_empty (s : Cache) (E : Externals) (now : Int) (last : Bool) (hd : s.depth > 0)
+    (hrows : s.rows = []) :
+    s.peekitem E now last false false = (s.logSql "selEdge", .exc "KeyError") := by
+  unfold peekitem
+  rw [peekitemLoop]
+  have : (if last = true then lastRow? s.rows else s.rows.head?) = none := by
+    rw [hrows]; cases last <;> rfl
+  simp only [this]
+  unfold transact
+  simp only [hd, if_true]
+  rfl
+
+theorem tbegin_zero (s : Cache) (hd : s.depth = 0) :
+    s.tbegin.rows = s.rows ∧ s.tbegin.cfg = s.cfg ∧ s.tbegin.depth = 1 ∧
+    s.tbegin.snap = some s.takeSnap ∧ s.tbegin.files = s.files := by
+  unfold tbegin
+  simp only [hd, beq_self_eq_true, if_true]
+  exact ⟨rfl, rfl, trivial, trivial, rfl⟩
+
+theorem tend_rows (s : Cache) : s.tend.rows = s.rows := by
+  unfold tend
+  split
+  · show (({ (s.log .commit) with depth := 0, snap := none } : Cache).fremoveAll _).rows = _
+    rw [fremoveAll_rows]; rfl
+  · rfl
+
+theorem traise_one_rows (s : Cache) (p : Snap) (hd : s.depth = 1) (hs : s.snap = some p) :
+    (s.traise 1).rows = p.rows := by
+  rw [traise_outer s 1 p (by omega) (by omega) hs]
+  show (({ ((s.restore p).log .rollback) with depth := 0, snap := none } : Cache).fremoveAll _).rows = _
+  rw [fremoveAll_rows]; rfl
+
+
+/-! ### the key codec round trip (hypothesis `hcodec` of `Index.popitem_end`) -/
+
+/-- under lawful codecs a stored pickle-disk key decodes to a Python key that encodes back to it -/
+theorem put_get_put (E : Externals) (hE : Lawful E) (k : PyVal) :
+    DC.put E .pickle (DC.get E .pickle (DC.put E .pickle k).1 (DC.put E .pickle k).2) =
+      DC.put E .pickle k := by
+  cases k with
+  | int i =>
+    by_cases hi : inI64 i = true <;>
+      simp [DC.put, DC.get, Disk.put, Disk.get, column, hE.loads_dumpsK, hi]
+  | _ => simp [DC.put, DC.get, Disk.put, Disk.get, column, hE.loads_dumpsK]
+
+end DC.Cache
 
 namespace DC.Index
 
